@@ -7,6 +7,10 @@ import (
 	"encoding/binary"
 	"encoding/json"
 	"fmt"
+	"image"
+	"image/color"
+	"image/jpeg"
+	"image/png"
 	"io"
 	"runtime"
 	"strconv"
@@ -36,7 +40,7 @@ type nodeD struct {
 }
 type prodD struct {
 	Name string `json:"name"`
-	Kind string `json:"kind,omitempty"` // "" = text producer on node Node; "bin" = basics.Binary on file parameter P;
+	Kind string `json:"kind,omitempty"` // "" = text producer on node Node; "bin" = basics.Binary on file parameter P; "img" = basics.ImageNode on image parameter P;
 	//                                     "ints" = harness slice artifact on ints parameter P (both keep the slice they were given);
 	//                                     "gltf" = the repository's gltf.ArtifactNode over Models gltf.ModelNode that share ONE mesh node
 	//                                     (harness TriMesh on int parameter P) and ONE gltf.MaterialNode (roughness = float parameter PB / 16)
@@ -47,7 +51,7 @@ type prodD struct {
 }
 type shapeD struct {
 	Name   string   `json:"name"`
-	PTypes []string `json:"ptypes"` // "int" | "float" | "string" | "bool" | "file" (parameter.File) | "ints" (Value[[]int])
+	PTypes []string `json:"ptypes"` // "int" | "float" | "string" | "bool" | "file" (parameter.File) | "ints" (Value[[]int]) | "image" (parameter.Image)
 	Nodes  []nodeD  `json:"nodes"`
 	Prods  []prodD  `json:"prods"`
 }
@@ -175,6 +179,82 @@ func codeText(v int, ok bool) string {
 		return "X"
 	}
 	return strconv.Itoa(v)
+}
+
+// ---- images: code v <-> a uniform gray square of side 4 + v%3 and level 15 + 25*v; uploads in several encodings
+// (PNG gray / RGBA / best compression, JPEG quality 95 - lossy, hence the tolerance when decoding)
+func imageSide(v int) int { return 4 + v%3 }
+func imageOf(v int) image.Image {
+	n := imageSide(v)
+	img := image.NewGray(image.Rect(0, 0, n, n))
+	for i := range img.Pix {
+		img.Pix[i] = uint8(15 + 25*(v%10))
+	}
+	return img
+}
+func imagePayload(v int, enc string) []byte {
+	var buf bytes.Buffer
+	src := imageOf(v)
+	switch enc {
+	case "jpeg":
+		jpeg.Encode(&buf, src, &jpeg.Options{Quality: 95})
+	case "png-rgba":
+		n := imageSide(v)
+		rgba := image.NewRGBA(image.Rect(0, 0, n, n))
+		for y := 0; y < n; y++ {
+			for x := 0; x < n; x++ {
+				rgba.Set(x, y, src.At(x, y))
+			}
+		}
+		png.Encode(&buf, rgba)
+	case "png-best":
+		(&png.Encoder{CompressionLevel: png.BestCompression}).Encode(&buf, src)
+	default:
+		png.Encode(&buf, src)
+	}
+	return buf.Bytes()
+}
+func decodeImage(img image.Image) (int, bool) {
+	if img == nil {
+		return 0, false
+	}
+	b := img.Bounds()
+	if b.Dx() != b.Dy() || b.Dx() < 4 || b.Dx() > 6 {
+		return 0, false
+	}
+	first := int(color.GrayModel.Convert(img.At(b.Min.X, b.Min.Y)).(color.Gray).Y)
+	v := (first - 15 + 12) / 25
+	if v < 0 || v > 9 || imageSide(v) != b.Dx() {
+		return 0, false
+	}
+	for y := b.Min.Y; y < b.Max.Y; y++ {
+		for x := b.Min.X; x < b.Max.X; x++ {
+			l := int(color.GrayModel.Convert(img.At(x, y)).(color.Gray).Y)
+			if d := l - (15 + 25*v); d < -8 || d > 8 {
+				return 0, false
+			}
+		}
+	}
+	return v, true
+}
+func decodeImageBytes(b []byte) (int, bool) {
+	img, _, err := image.Decode(bytes.NewReader(b))
+	if err != nil {
+		return 0, false
+	}
+	return decodeImage(img)
+}
+
+type ShowImageData struct {
+	c  *cfg
+	In nodes.NodeOutput[image.Image]
+}
+
+func (d ShowImageData) Process() (string, error) {
+	d.c.enter()
+	defer d.c.leave()
+	d.c.j.pause()
+	return fmt.Sprintf("p%d=%s;", d.c.idx, codeText(decodeImage(d.In.Value()))), nil
 }
 
 // IntsArtifact keeps the slice it was given (like basics.Binary keeps its bytes) and serialises on demand
@@ -458,7 +538,7 @@ type liveGraph struct {
 	retained []*rec
 }
 
-func encodeVal(typ string, v int) []byte {
+func encodeVal(typ string, v int, enc string) []byte {
 	switch typ {
 	case "int", "float":
 		return []byte(strconv.Itoa(v))
@@ -474,6 +554,8 @@ func encodeVal(typ string, v int) []byte {
 	case "ints":
 		b, _ := json.Marshal(intsPayload(v))
 		return b
+	case "image":
+		return imagePayload(v, enc)
 	}
 	panic("type")
 }
@@ -517,6 +599,8 @@ func decodeVal(typ string, msg []byte) (int, bool) {
 			return 0, false
 		}
 		return decodeInts(xs)
+	case "image":
+		return decodeImageBytes(msg) // judged by decoded content, whatever encoding comes back
 	}
 	return 0, false
 }
@@ -529,6 +613,7 @@ func build(s *shapeD, init []int, j *jit) *liveGraph {
 	bools := map[int]nodes.NodeOutput[bool]{}
 	files := map[int]nodes.NodeOutput[[]byte]{}
 	intss := map[int]nodes.NodeOutput[[]int]{}
+	images := map[int]nodes.NodeOutput[image.Image]{}
 	for p, t := range s.PTypes {
 		name := fmt.Sprintf("p%d", p)
 		switch t {
@@ -556,6 +641,10 @@ func build(s *shapeD, init []int, j *jit) *liveGraph {
 			n := &parameter.Value[[]int]{Name: name, DefaultValue: intsPayload(init[p])}
 			intss[p] = n.Out()
 			g.par = append(g.par, liveParam{typ: t, node: n})
+		case "image":
+			n := &parameter.Image{Name: name, DefaultValue: imageOf(init[p])}
+			images[p] = n.Out()
+			g.par = append(g.par, liveParam{typ: t, node: n})
 		default:
 			panic("ptype " + t)
 		}
@@ -578,6 +667,8 @@ func build(s *shapeD, init []int, j *jit) *liveGraph {
 				outs[k] = (&nodes.Struct[string, ShowFileData]{Data: ShowFileData{c: c, In: files[d.P]}}).Out()
 			case "ints":
 				outs[k] = (&nodes.Struct[string, ShowIntsData]{Data: ShowIntsData{c: c, In: intss[d.P]}}).Out()
+			case "image":
+				outs[k] = (&nodes.Struct[string, ShowImageData]{Data: ShowImageData{c: c, In: images[d.P]}}).Out()
 			}
 		case "fshow":
 			if s.PTypes[d.P] != "int" {
@@ -605,6 +696,8 @@ func build(s *shapeD, init []int, j *jit) *liveGraph {
 			g.inst.AddProducer(p.Name, basics.NewTextNode(outs[p.Node]))
 		case "bin":
 			g.inst.AddProducer(p.Name, basics.NewBinaryNode(files[p.P]))
+		case "img":
+			g.inst.AddProducer(p.Name, basics.NewImageNode(images[p.P]))
 		case "ints":
 			c := &cfg{idx: p.P, j: j, overlaps: &g.over}
 			g.inst.AddProducer(p.Name, (&nodes.Struct[artifact.Artifact, IntsArtifactData]{Data: IntsArtifactData{c: c, In: intss[p.P]}}).Out())
@@ -666,6 +759,9 @@ func (g *liveGraph) decodeArtifact(prod int, data []byte) ([]int, bool) {
 	case "bin":
 		v, ok := decodeFile(data)
 		return []int{v}, ok
+	case "img":
+		v, ok := decodeImageBytes(data)
+		return []int{v}, ok
 	case "ints":
 		var xs []int
 		if json.Unmarshal(data, &xs) != nil {
@@ -689,7 +785,7 @@ func artifactText(a artifact.Artifact) (string, bool) {
 }
 
 // ---------------------------------------------------------------- shapes
-var ptypeCycle = []string{"int", "file", "float", "ints", "string", "bool"}
+var ptypeCycle = []string{"int", "file", "float", "image", "ints", "string", "bool"}
 
 func fixedShapes() []*shapeD {
 	return []*shapeD{
@@ -745,6 +841,16 @@ func fixedShapes() []*shapeD {
 			},
 			Prods: []prodD{{Name: "a.txt", Node: 6}, {Name: "b.txt", Node: 7}, {Name: "scene.glb", Kind: "gltf", P: 4, PB: 1, Models: 3},
 				{Name: "pair.glb", Kind: "gltf", P: 0, PB: 1, Models: 2}},
+		},
+		{ // image parameters (uploads in several encodings), shown in text artifacts and served by basics.ImageNode
+			Name: "images", PTypes: []string{"image", "int", "image", "string"},
+			Nodes: []nodeD{
+				{Kind: "show", P: 0}, {Kind: "show", P: 1}, {Kind: "show", P: 2}, {Kind: "show", P: 3}, // 0-3
+				{Kind: "join", In: []int{0, 1}}, // 4 (shared)
+				{Kind: "join", In: []int{4, 2}}, // 5 -> a.txt [0,1,2]
+				{Kind: "join", In: []int{3, 4}}, // 6 -> b.txt [3,0,1]
+			},
+			Prods: []prodD{{Name: "a.txt", Node: 5}, {Name: "b.txt", Node: 6}, {Name: "pic.png", Kind: "img", P: 0}, {Name: "pic2.png", Kind: "img", P: 2}},
 		},
 		{ // slice-valued parameters: an uploaded file feeding a binary artifact and a text artifact, an int slice
 			Name: "slices", PTypes: []string{"file", "int", "ints", "string", "file"},
@@ -873,6 +979,9 @@ func randomShape(r *hx.Rng, k int) *shapeD {
 		}
 		if t == "ints" && r.Chance(3, 4) {
 			s.Prods = append(s.Prods, prodD{Name: fmt.Sprintf("raw%d.json", p), Kind: "ints", P: p})
+		}
+		if t == "image" && r.Chance(3, 4) {
+			s.Prods = append(s.Prods, prodD{Name: fmt.Sprintf("pic%d.png", p), Kind: "img", P: p})
 		}
 	}
 	return s
